@@ -68,7 +68,11 @@ func (e *executionContext) appendLog(ctx context.Context, build func() *ledger.L
 	return chainedLog, done, nil
 }
 
-func (e *executionContext) run(ctx context.Context, executor func(e *executionContext) (*ledger.ChainedLog, chan struct{}, error)) (*ledger.ChainedLog, error) {
+// run executes the request, or answers the log stored under its idempotency key when there is one. isOutcome tells
+// whether a stored log is the outcome of this very request (kind and target): a key that stored something else is
+// refused, the log of another request is never handed back as the answer.
+func (e *executionContext) run(ctx context.Context, isOutcome func(log *ledger.ChainedLog) bool,
+	executor func(e *executionContext) (*ledger.ChainedLog, chan struct{}, error)) (*ledger.ChainedLog, error) {
 	defer e.complete()
 	if ik := e.parameters.IdempotencyKey; ik != "" {
 		if err := e.commander.referencer.take(referenceIks, ik); err != nil {
@@ -81,6 +85,9 @@ func (e *executionContext) run(ctx context.Context, executor func(e *executionCo
 		chainedLog, err := e.commander.store.ReadLogWithIdempotencyKey(ctx, ik)
 		verifhook.Yield(ctx, "ik.lookup", "hit", err == nil)
 		if err == nil {
+			if !isOutcome(chainedLog) {
+				return nil, NewErrIdempotencyKeyReused(ik)
+			}
 			return chainedLog, nil
 		}
 		if err != nil && !storageerrors.IsNotFoundError(err) {
